@@ -1,5 +1,6 @@
 """Just Cause 2: Multiplayer family (`games::jc2m::query_with_timeout`; GameSpy 3 in single-packet mode): how the
 generic property runners drive it."""
+from props import malformed
 
 FAMILY = dict(send_units=1,  # C13_jc2m_send_bound: the data request is paid for by the challenge reply
     name="jc2m", nargs=2, gen="jc2m", retries=1, port=0, decode_property="C07", entry="jc2m",
@@ -37,7 +38,7 @@ def c10_build(valid, unit, v, r, new_id):
             elif e == "F":
                 faults.append(True)
             else:
-                newds.append(b"\xff\xff")
+                newds.append(malformed.CURRENT)
                 faults.append(False)
         else:
             if e == "S":
@@ -47,7 +48,7 @@ def c10_build(valid, unit, v, r, new_id):
                 newds += [hs]
                 faults += [False, True]
             else:
-                newds += [hs, b"\xff\xff"]
+                newds += [hs, malformed.CURRENT]
                 faults += [False, False]
     c.script = [newds]
     c.args[FAMILY["retries"]] = str(r)
